@@ -286,6 +286,29 @@ def fields(ans):
     return d
 
 
+RECURSION_CLAUSES = 40
+
+
+def recursion_signature(line, impl_ans, model_ans):
+    """signature class of a RecursionError answer `ERR RecursionError clauses=<n> loop=<T|F|?>` and whether the
+    verdict layer that was reached agrees with the model / the truth table"""
+    n, loop = None, '?'
+    for tok in impl_ans.split():
+        if tok.startswith('clauses=') and tok[8:].isdigit():
+            n = int(tok[8:])
+        if tok.startswith('loop='):
+            loop = tok[5:]
+    cls = 'clauses>=%d' % RECURSION_CLAUSES if (n is not None and n >= RECURSION_CLAUSES) else 'clauses<%d' % RECURSION_CLAUSES
+    ok = True
+    if model_ans:
+        d = fields(model_ans) if ' ; ' in model_ans else fields('x=0 ; ' + model_ans)
+        if loop in 'TF' and 'res' in d and d['res'] in 'FN':
+            ok = (loop == 'T') == (d['res'] == 'F')
+        if line[0] == 'P' and 'entry' in d and d['entry'] != classify(line[2:]):
+            ok = False
+    return 'prove_tautology/RecursionError/' + cls, ok
+
+
 def build_model():
     """like common.build_mlref, but links the `unix` library (the driver uses alarm() for per-case
     timeouts, because the modelled to_cnf is exponential exactly like the implementation)"""
@@ -488,10 +511,15 @@ def run(tier, seed):
                 R.case(line, False, kind + ':timeout')
                 continue
             if i is not None and i.startswith('ERR RecursionError') and not (m or '').startswith('ERR'):
-                # D17: CPython's C recursion limit hit inside Pattern.__eq__; the model has no such limit
+                # D17: CPython's C recursion limit hit inside Pattern.__eq__ during proof reconstruction; the
+                # model has no such limit.  The verdict layer is still compared: what the implementation's
+                # saturation loop had answered (loop=) must agree with the model, and the model's verdict
+                # with the truth table.
                 R.case(line, False, kind + ':recursion')
-                R.violation('prove_tautology/RecursionError',
-                            f'implementation raises RecursionError (input {line}); model answers {m[-40:]}',
+                sig, ok_layer = recursion_signature(line, i, m)
+                if not ok_layer:
+                    mismatches.append((line, m, i))
+                R.violation(sig, f'implementation raises RecursionError ({i}) on input {line}; model answers {m[-40:]}',
                             {'input': line, 'got': i, 'model': m})
                 continue
             R.case(line, nontrivial(line, i or ''), kind)
@@ -559,7 +587,7 @@ def run(tier, seed):
         constrained = any(t[0] == 'c' for t in f.split())
         R.case('Q ' + f, True, 'proofs_constrained' if constrained else 'proofs')
         if a.startswith('ERR RecursionError'):
-            R.violation('prove_tautology/RecursionError', f'implementation raises RecursionError (input Q {f})',
+            R.violation(recursion_signature('Q ' + f, a, None)[0], f'implementation raises RecursionError ({a}; input Q {f})',
                         {'input': 'Q ' + f, 'got': a})
             continue
         if a.startswith('ERR'):
@@ -592,7 +620,7 @@ def run(tier, seed):
             continue
         R.case(q, True, 'stageproofs' + q[3])
         if a.startswith('ERR RecursionError'):
-            R.violation('prove_tautology/RecursionError', f'implementation raises RecursionError (input {q})', {'input': q, 'got': a})
+            R.violation(recursion_signature(q, a, None)[0], f'implementation raises RecursionError ({a}; input {q})', {'input': q, 'got': a})
         elif a != 'OK':
             R.violation(f'proof-layer/stage-{q[3]}', f'stage proof has the wrong conclusion or fails: {a} (input {q})',
                         {'input': q, 'got': a})
